@@ -69,7 +69,8 @@ def run(ctx):
     # (a) recorded runs of the real binary
     binp = ctx.build_repo_bin("cmd/go-critic")
     # regexp-, size- and generics-heavy packages are always present: shared parsers / size caches are classic shared state
-    fixed = ["badRegexp", "regexpSimplify", "regexpPattern", "rangeValCopy", "hugeParam"]
+    # ... and badCond's examples (reversed counting loops: a checker that formats a modified node must work on a copy)
+    fixed = ["badRegexp", "regexpSimplify", "regexpPattern", "rangeValCopy", "hugeParam", "badCond"]
     rest = [n for n in wsmod.GOOD if n not in fixed]
     ctx.rng.shuffle(rest)
     w = wsmod.make(ctx, "ws_c04", 8 if thorough else 6, pick=fixed + rest, adv=("sizes", "generics", "shapes"))
